@@ -45,6 +45,18 @@ FF_UNITS = ["{0}CC{1}", "{0}CC({1})C", "{0}CC({1})c1ccccc1", "{0}CCO{1}", "{0}CC
             "{0}CC({1})c1ccc2OCOc2c1", "{0}CC({1})C1CCCCC1", "{0}CC({1})c1ccncc1", "{0}CC({1})c1cccs1", "{0}CC({1})c1ccco1",
             "{0}CC({1})c1ccc(C)cc1", "{0}CC({1})c1ccc(O)cc1", "{0}CC({1})c1ccc(Cl)cc1", "{0}CC({1})N1CCCC1=O", "{0}CC({1})n1ccnc1",
             "{0}c1ccc(cc1){1}", "{0}Cc1ccc(cc1)C{1}", "{0}CC({1})c1c(C)sc2ccccc12", "{0}CC({1})c1cc2ccccc2o1", "{0}CC({1})c1cc2ccccc2s1"]
+# pendant groups on a vinyl backbone, all typable by the bundled rule set on the unchanged tree (heterocycles, rings of every
+# size, carbonyl / sulfur / phosphorus / nitrogen functions, substituted phenyls), plus a few the rule set cannot type
+# (the call must then raise the assignment error with the partial result)
+FF_PENDANTS = ['c1cscn1', 'c1ccns1', 'c1cocn1', 'c1ccno1', 'c1ncco1', 'c1nccs1', 'c1cnco1', 'c1cncs1', 'c1ccn(C)n1', 'c1cn(C)cn1', 'c1ccn(C)c1',
+               'c1ncccn1', 'c1cnccn1', 'c1ccnnc1', 'c1nc2ccccc2s1', 'c1nc2ccccc2o1', 'c1cn(C)c2ccccc12', 'C1CC1', 'C1CCC1', 'C1CCCC1', 'C1CCOC1',
+               'C1CCCO1', 'C1CCNC1', 'C1CCN(C)C1', 'N1CCCC1', 'N1CCOCC1', 'C(=O)C', 'C=O', 'C(=O)NC', 'C(=O)N(C)C', 'NC(=O)C', 'N(C)C(=O)C',
+               'OC(=O)N', 'NC(=O)OC', 'OC(=O)OC', 'S(=O)(=O)C', 'S(=O)C', 'SC', 'SSC', 'CS', 'P(=O)(OC)OC', '[N+](=O)[O-]', 'C#C', 'C=C',
+               'C(Cl)(Cl)Cl', 'CBr', 'CI', 'I', 'N(C)C', 'NC', 'N', '[NH3+]', 'C(=O)[O-]', 'OCC1CO1', 'C1CO1', 'c1ccc(N)cc1', 'c1ccc(C#N)cc1',
+               'c1ccc([N+](=O)[O-])cc1', 'c1ccc(OC)cc1', 'c1ccc(C(=O)O)cc1', 'c1ccc(S)cc1', 'c1ccc(Br)cc1', 'c1ccc(I)cc1', 'c1ccc(C(F)(F)F)cc1',
+               'c1c(F)c(F)c(F)c(F)c1F', '[Si](C)(C)C', 'C(=O)OC(C)(C)C', 'C(=O)OCCO', 'OC', 'OCC', 'OC(C)=O', 'C(C)=O', 'CO', 'CCO', 'C(O)CO',
+               'CN', 'CCN']
+FF_PENDANTS_UNTYPABLE = ['C(=O)Cl', 'C(F)(F)F', 'OO', 'N=C=O', 'B(O)O']
 FF_ENDS = ["[H]", "C", "O", "CC", "OC", "c1ccccc1", "C(C)(C)C", "F", "N", "Cl", "Br", "C#N", "C(=O)O", "S",
            "Cc1cc2ccccc2o1", "Cc1ccc2ccccc2n1", "c1ccc2ccccc2c1", "Cc1ccco1"]
 FF_PREFIX = ["[H]", "C", "O", "CC", "CO", "c1ccccc1", "C(C)(C)C", "F", "N", "Cl", "Br", "N#CC", "OC(=O)C", "S"]
@@ -59,6 +71,12 @@ def plan(tier):
 def ff_molecule(rnd):
     n_u = rnd.choice([1, 1, 2])
     units = rnd.sample(FF_UNITS, n_u)
+    for k in range(n_u):
+        r = rnd.random()
+        if r < 0.45:
+            units[k] = "{0}CC({1})" + rnd.choice(FF_PENDANTS)
+        elif r < 0.49:
+            units[k] = "{0}CC({1})" + rnd.choice(FF_PENDANTS_UNTYPABLE)
     ut = ", ".join(u.format("[<]", "[>]") for u in units)
     T = rnd.choice([40, 80, 150])
     dist = rnd.choice([f"|gauss({T}, {T // 4})|", f"|uniform({T // 2}, {T})|", f"|poisson({T})|"])
